@@ -355,3 +355,228 @@ def flatten_multi(stmts):
             s["cases"] = [(c, flatten_multi(b)) for c, b in s["cases"]]
         out.append(s)
     return out
+
+
+class GenCalls(Gen):
+    """Core generator extended with SUB/FUNCTION definitions and calls (C03): by-reference and by-value
+    arguments of every shape, fresh locals, function results, STATIC procedures, DIM SHARED and CONST."""
+
+    def __init__(self, rng, **kw):
+        Gen.__init__(self, rng, **kw)
+        self.procs = []          # dicts: name, k, params [(name, type)], static, rtype, body
+        self.shared = []         # names with suffix
+        self.consts = []         # (name, type)
+        self.arrays = {}         # name -> (type, lb, ub)
+        self.scope = None        # None = main, else proc dict being generated
+        self.callable = []       # procs that may be called from the current scope
+        self.call_depth = 0
+        self.n_calls = 0
+
+    # a by-ref capable place of type t in the current scope
+    def place(self, t):
+        r = self.rng
+        if self.arrays and r.random() < 0.25 and self.scope is None:
+            cands = [n for n, (at, lb, ub) in self.arrays.items() if at == t]
+            if cands:
+                n = r.choice(cands)
+                at, lb, ub = self.arrays[n]
+                return ("idx", n, [("lit", "%", r.randrange(lb, ub + 1))])
+        return self.var(t)
+
+    def var(self, t):
+        pool = list(self.cur_vars(t))
+        return ("var", self.rng.choice(pool))
+
+    def cur_vars(self, t):
+        if self.scope is None:
+            return VARS[t] + [s for s in self.shared if s[-1] == t]
+        out = [p for p, pt in self.scope["params"] if pt == t]
+        out += ["L%d%s" % (i, t) for i in range(2)]
+        out += [s for s in self.shared if s[-1] == t]
+        return out
+
+    def expr(self, t, depth=0):
+        r = self.rng
+        if depth <= 2 and self.callable and r.random() < 0.12 and self.call_depth < 2:
+            fs = [p for p in self.callable if p["k"] == "function" and (p["rtype"] == t or (t != "$" and p["rtype"] != "$" and RANK[p["rtype"]] <= RANK[t]))]
+            if fs:
+                return self.call_expr(r.choice(fs))
+        if t != "$" and self.consts and r.random() < 0.05:
+            cs = [n for n, ct in self.consts if ct != "$" and RANK[ct] <= RANK[t]]
+            if cs:
+                return ("var", r.choice(cs))
+        return Gen.expr(self, t, depth)
+
+    def args_for(self, proc):
+        r = self.rng
+        args = []
+        self.call_depth += 1
+        used = []
+        for pname, pt in proc["params"]:
+            x = r.random()
+            if x < 0.5:
+                # by reference: a place of exactly the parameter's type; sometimes the same place twice (aliasing)
+                if used and r.random() < 0.15 and used[-1][0] == pt:
+                    a = used[-1][1]
+                else:
+                    a = self.place(pt)
+                    used.append((pt, a))
+                args.append(a)
+            elif x < 0.65 and pt != "$":
+                # by value: a variable in parentheses, or of another numeric type
+                args.append(("par", self.var(pt)))
+            else:
+                if pt == "$":
+                    args.append(Gen.expr(self, "$", 2) if r.random() < 0.7 else ("par", self.var("$")))
+                else:
+                    e = Gen.expr(self, pt, 2)
+                    if e[0] in ("var", "idx"):
+                        e = ("par", e)
+                    args.append(e)
+        self.call_depth -= 1
+        return args
+
+    def call_expr(self, proc):
+        self.n_calls += 1
+        return ("call", proc["name"], self.args_for(proc))
+
+    def simple(self):
+        r = self.rng
+        if self.callable and r.random() < 0.22:
+            subs = [p for p in self.callable if p["k"] == "sub"]
+            if subs:
+                p = r.choice(subs)
+                self.n_calls += 1
+                return {"k": "callsub", "name": p["name"], "args": self.args_for(p)}
+        s = Gen.simple(self)
+        if s["k"] == "read" and self.scope is not None:
+            return self.print_stmt()
+        return s
+
+    def assign(self):
+        r = self.rng
+        s = Gen.assign(self)
+        # redirect the target to a variable that exists in the current scope
+        t = s["lhs"][1][-1]
+        pool = [v for v in self.cur_vars(t) if v not in self.reserved]
+        if self.scope is not None and self.scope["k"] == "function" and self.scope["rtype"] == t and r.random() < 0.35:
+            s["lhs"] = ("var", self.scope["name"])
+        elif self.arrays and self.scope is None and r.random() < 0.2:
+            cands = [n for n, (at, lb, ub) in self.arrays.items() if at == t]
+            if cands:
+                n = r.choice(cands)
+                s["lhs"] = ("idx", n, [("lit", "%", r.randrange(self.arrays[n][1], self.arrays[n][2] + 1))])
+        else:
+            s["lhs"] = ("var", r.choice(pool))
+        return s
+
+    def print_stmt(self):
+        s = Gen.print_stmt(self)
+        return s
+
+    def make_proc(self, i, n_total):
+        r = self.rng
+        k = r.choice(["sub", "sub", "function"])
+        rtype = r.choice(["%", "&", "!", "$", "%"]) if k == "function" else None
+        name = ("Fn%d%s" % (i, rtype)) if k == "function" else "Proc%d" % i
+        params = []
+        for j in range(r.choice([0, 1, 1, 2, 3])):
+            pt = r.choice(["%", "%", "&", "!", "$"] if self.allow_fractions else ["%", "%", "&", "$"])
+            params.append(("P%d%s" % (j, pt), pt))
+        return {"name": name, "k": k, "params": params, "static": r.random() < 0.35, "rtype": rtype, "body": None, "index": i}
+
+    def proc_body(self, p, later):
+        r = self.rng
+        self.scope = p
+        self.callable = later
+        body = []
+        if p["static"]:
+            # a counter that shows whether the variables of a STATIC procedure persist
+            body.append({"k": "assign", "lhs": ("var", "CNT%"), "rhs": ("bin", "+", ("var", "CNT%"), ("lit", "%", 1))})
+            body.append({"k": "print", "items": [("e", ("lit", "$", p["name"] + " call")), (";",), ("e", ("var", "CNT%"))]})
+        else:
+            # locals must be fresh in every activation
+            body.append({"k": "print", "items": [("e", ("lit", "$", p["name"] + " fresh")), (";",), ("e", ("var", "L0%")), (";",), ("e", ("var", "L1$"))]})
+        saved_depth = self.max_depth
+        self.max_depth = min(self.max_depth, 3)
+        for _ in range(r.choice([1, 2, 3, 4])):
+            body.append(self.stmt(1))
+        self.max_depth = saved_depth
+        # modify some parameters so that by-reference passing is observable
+        for pname, pt in p["params"]:
+            if r.random() < 0.6:
+                if pt == "$":
+                    body.append({"k": "assign", "lhs": ("var", pname), "rhs": ("bin", "+", ("var", pname), ("lit", "$", r.choice(["x", "Y", "!"])))})
+                else:
+                    body.append({"k": "assign", "lhs": ("var", pname), "rhs": ("bin", "+", ("var", pname), ("lit", "%", r.choice([1, 2, 10])))})
+        if p["k"] == "function" and r.random() < 0.85:
+            e = Gen.expr(self, p["rtype"], 1)
+            body.append({"k": "assign", "lhs": ("var", p["name"]), "rhs": e})
+            if r.random() < 0.3:
+                body.append({"k": "assign", "lhs": ("var", p["name"]), "rhs": Gen.expr(self, p["rtype"], 1)})
+        p["body"] = flatten_multi(body)
+        self.scope = None
+
+    def program(self):
+        r = self.rng
+        n = r.choice([1, 2, 2, 3, 4, 5])
+        self.procs = [self.make_proc(i, n) for i in range(n)]
+        head = []
+        for t in "%&$":
+            if r.random() < 0.6:
+                nm = "G%s%s" % ("IL S".replace(" ", "")["%&$".index(t)] if False else {"%": "I", "&": "L", "$": "S"}[t], t)
+                self.shared.append(nm)
+                head.append({"k": "dim", "text": "DIM SHARED " + nm, "decls": [{"name": nm, "type": t, "shared": True}]})
+        for i in range(r.choice([0, 1, 2])):
+            ct = r.choice(["%", "$", "!"] if self.allow_fractions else ["%", "$"])
+            nm = "K%d%s" % (i, ct)
+            self.consts.append((nm, ct))
+            head.append({"k": "const", "name": nm, "expr": self.lit(ct)})
+        for i in range(r.choice([0, 1, 2])):
+            at = r.choice(["%", "&", "$", "!"] if self.allow_fractions else ["%", "&", "$"])
+            lb = r.choice([0, 1, -2])
+            ub = lb + r.choice([1, 2, 3])
+            nm = "AR%d%s" % (i, at)
+            self.arrays[nm] = (at, lb, ub)
+            head.append({"k": "dim", "text": "DIM %s(%d TO %d)" % (nm, lb, ub),
+                         "decls": [{"name": nm, "type": at, "dims": [(("lit", "%", lb), ("lit", "%", ub))]}]})
+        # procedure bodies: a procedure may call the ones defined after it (no cycles)
+        for i, p in enumerate(self.procs):
+            self.proc_body(p, self.procs[i + 1:])
+        self.scope = None
+        self.callable = list(self.procs)
+        prog = Gen.program(self)
+        main = head + prog["main"]
+        # a history of calls that interleaves STATIC and ordinary procedures
+        for _ in range(r.choice([2, 4, 6, 10])):
+            p = r.choice(self.procs)
+            if p["k"] == "sub":
+                main.append({"k": "callsub", "name": p["name"], "args": self.args_for(p)})
+            else:
+                main.append({"k": "print", "items": [("e", self.call_expr(p))]})
+            if r.random() < 0.4:
+                main.append(self.print_stmt())
+        # END (if any) must stay last
+        ends = [s for s in main if s["k"] == "end"]
+        main = [s for s in main if s["k"] != "end"] + ends[:1]
+        procs = []
+        for p in self.procs:
+            procs.append({"k": p["k"], "name": p["name"], "params": p["params"], "static": p["static"], "rtype": p["rtype"], "body": p["body"]})
+        counter = [0]
+        number_statements(main, counter)
+        for p in procs:
+            number_statements(p["body"], counter)
+        return {"main": main, "procs": procs, "shared": set(self.shared)}
+
+
+def emit_with_procs(prog, **kw):
+    """Emits main followed by the procedure definitions. Returns (text, spans)."""
+    from .lang import Emitter
+    em = Emitter(eol=kw.get("eol", "\n"), indent=2, rng=kw.get("rng"), noise=kw.get("noise", 0.0))
+    for s in prog["main"]:
+        em.stmt(s)
+    em.flush()
+    for p in prog["procs"]:
+        em.stmt({"k": p["k"], "name": p["name"], "params": [n for n, t in p["params"]], "static": p["static"], "body": p["body"], "id": None})
+    em.flush()
+    return "".join(t + e for t, e in em.lines), em.spans
